@@ -145,10 +145,22 @@ def gen_cmp(rng, refs):
     return {"k": "cmp", "op": rng.choice(["<", "<=", ">", ">="]), "l": l, "r": r}
 
 
+def strip_copies(e):
+    """The shared generator may emit {"t": "copy"} items (model.copy() with one constant changed: same
+    priors).  For persistence only ids matter, so the copy is written out as the component it denotes."""
+    if e["t"] == "coll":
+        e = MG.resolve_copies(e) if hasattr(MG, "resolve_copies") else e
+        return dict(e, items=[[k, strip_copies(v)] for k, v in e["items"]])
+    if e["t"] == "model":
+        return dict(e, kw={k: strip_copies(v) for k, v in e["kw"].items()})
+    return e
+
+
 def gen_case(ctx):
     rng = ctx.rng
     g = Gen8(rng, max_depth=2 if ctx.tier == "quick" else 3, big_tuples=rng.random() < 0.15)
     prog = g.program()
+    prog["root"] = strip_copies(prog["root"])
     root, pool = prog["root"], prog["pool"]
     feats = set(prog["features"])
     c = {"program": prog, "passed": [], "dicts": [], "asserts": []}
